@@ -124,6 +124,21 @@ theorem entry_point_is_inputs (P : Params σ) (c : Cfg) (ops : List Op) :
           ⟨fun t a h => by rw [extEntered_task]; exact h, fun a h => h⟩ c s rfl
       simp [applyOp, inputs, this]
 
+/-- **C02 (conservation), in the property's own terms**: for every matcher, validator, configuration and every
+sequence `ops` of `add_data` / `BoboEngine.update` calls on a fresh engine — the data given to `add_data` are exactly
+the `ext`-tagged entries of the receiver's intake, and the whole intake (those data interleaved with the fed-back
+complex / action events) reaches the matcher once each, in order, minus what the validator rejects and what is still
+queued. -/
+theorem conservation_ops (P : Params σ) (c : Cfg) (d : σ) (ops : List Op) :
+    let s := runOps P c (init d) ops
+    extEntered s = inputs ops ∧
+    (s.entered.map (·.2)).filter P.isValid = s.processed.map (·.1) ++ s.rq.filter P.isValid ∧
+    s.processed.map (·.2) = s.seen ++ s.dq ∧
+    (∀ p ∈ s.processed, Wraps p.1 p.2) := by
+  have h := conservation (reach_fine (P := P) (c := c) ⟨d, ops, rfl⟩)
+  refine ⟨?_, h.2.1, h.2.2.1, h.2.2.2⟩
+  rw [entry_point_is_inputs]; simp [extEntered, init]
+
 /-! ## one complex event, one execution, one action event per completed run -/
 
 /-- **C02 (1:1:1, contents)**.  In every reachable state:
@@ -507,6 +522,27 @@ theorem no_stranding {P : Params σ} {Q : σ → Prop} (hq : Quiet P Q) (c : Cfg
     · have := engine_update_progress hq c s hh
       omega
 
+/-! ## the history variables are only history -/
+
+/-- **ghost_free**: two states that agree on the real fields (five queues, matcher state, generator counters, pending
+exception) still agree on them after any operation, whatever their ghost (history) fields hold: the ghost fields the
+theorems above speak about are never read by the model. -/
+theorem ghost_free (P : Params σ) (c : Cfg) (o : Op) (s s' : St σ) (h : core s = core s') :
+    core (applyOp P c s o) = core (applyOp P c s' o) := by
+  cases o with
+  | update => exact core_engineUpdate P c s s' h
+  | add it =>
+    have h1 := congrArg Core.rq h; have h2 := congrArg Core.dq h; have h3 := congrArg Core.pq h
+    have h4 := congrArg Core.fq h; have h5 := congrArg Core.hq h; have h6 := congrArg Core.ds h
+    have h7 := congrArg Core.nid h; have h8 := congrArg Core.nts h; have h9 := congrArg Core.err h
+    simp only [core] at h1 h2 h3 h4 h5 h6 h7 h8 h9
+    simp [applyOp, addData, core, *]
+
+/-- …and likewise for a single task update (fine-grained interleavings). -/
+theorem ghost_free_task (P : Params σ) (t : Task) (s s' : St σ) (h : core s = core s') :
+    core (taskUpdate P t s).1 = core (taskUpdate P t s').1 ∧ (taskUpdate P t s).2 = (taskUpdate P t s').2 :=
+  core_task P t s s' h
+
 /-! ## the honest negatives: `times = 0` does not drain a queue in one engine update -/
 
 /-- a matcher that never reports a change. -/
@@ -556,8 +592,10 @@ def demoP : Params Nat :=
     tsOf := fun k => k }
 
 def demoOps : List Op :=
-  [.add (.raw (.int 1)), .add (.raw (.str "x")), .add (.raw (.int 2)), .update, .add (.raw (.int 3)), .update, .update, .update]
+  [.add (.raw (.int 1)), .add (.raw (.str "x")), .add (.raw (.int 2)), .update, .add (.raw (.int 3)), .update, .update, .update,
+   .update, .update, .update]
 
+set_option maxRecDepth 8192 in
 /-- after the demo run: 2 completed runs notified (p, then q through feedback), 2 complex events, 1 execution,
 1 action event, 1 halted run, everything drained; the invalid datum was dropped; 6 events seen by the matcher. -/
 example :
